@@ -6,7 +6,7 @@ from typing import Dict, Iterable, List, Optional, Set, Tuple
 
 from ..model import AnalysisError, FuncInfo, Program
 from ..symex import (T, Evaluator, array_fn, call_parts, const, func_name, getitem, is_const, mk,
-                     show, strip_wrappers, subterms)
+                     show, strip_wrappers, subterms, sym)
 from .match import m_arrcall, m_binop, m_method, product_factors
 
 SAMPLERS = {"jax.random.normal", "jax.random.uniform", "jax.random.bernoulli",
@@ -47,11 +47,17 @@ def parents_map(terms: Iterable[T]) -> Dict[int, List[T]]:
     return par
 
 
-def prng1(ctx, fi: FuncInfo, rule: str = "PRNG-1") -> int:
+def prng1(ctx, fi: FuncInfo, rule: str = "PRNG-1", self_class=None) -> int:
     """Key linearity in one function: every random.split(K) stores its first result back to
     where K was read, hands its second result to exactly one sampler call, and K is not used
     again."""
-    ev, fr = eval_with_terms(ctx.p, fi)
+    ev = Evaluator(ctx.p)
+    ev.open_transforms = True
+    ev.record_terms = []
+    ev.auto_inline_helpers = True
+    if self_class is not None:
+        ev.exact_types[sym("self")] = self_class        # a public wrapper forwards to the kernel of this very class
+    fr = ev.eval_function(fi, self_class=self_class)
     terms = all_terms(ev)
     par = parents_map(terms)
     splits = [t for t in terms if t.op == "call" and func_name(t) == "jax.random.split"]
